@@ -3,6 +3,7 @@ from core import Prog, AnchorLost
 from sym import Sym, pp, walk_terms, const_of
 from rules import is_call, find_calls, arg_field, result_variant, callees, unref, extract_switch_map
 import e1
+import os
 
 FNS = ("round::duration_round", "round::duration_trunc", "round::duration_round_up")
 NAIVE_LOCAL = "datetime::DateTime::<Tz>::naive_local"
@@ -11,7 +12,7 @@ NAIVE_LOCAL = "datetime::DateTime::<Tz>::naive_local"
 def run(chk, tier):
     P = Prog("default")
     chk.configs.add("default")
-    for r in (r_guards, r_digits, r_basis, r_subsecs, r_unchanged, r_rounding_map, r_absint):
+    for r in (r_guards, r_digits, r_basis, r_subsecs, r_unchanged, r_rounding_map, r_error_text, r_absint):
         chk.guarded(r, P, tier)
     chk.assume("which multiple is returned, tie breaking and idempotence are numerical and NOT decided")
     return {
@@ -127,7 +128,13 @@ def r_basis(chk, P, tier):
     for m, helper in (("duration_round", FNS[0]), ("duration_trunc", FNS[1]), ("duration_round_up", FNS[2])):
         fn = "<datetime::DateTime<Tz> as round::DurationRound>::" + m
         r = [p.ret for p in Sym(P, fn).paths() if p.end[0] == "return"]
-        ok = len(r) == 1 and is_call(r[0], name=helper) and is_call(r[0][2][0], suffix="overflowing_naive_local") and arg_field(r[0][2][1]) == (1, None)
+        ok = len(r) == 1 and is_call(r[0], name=helper) and arg_field(r[0][2][1]) == (1, None)
+        if ok:
+            basis = r[0][2][0]
+            # the wall-clock basis: overflowing_naive_local() of the receiver, or its body naive_utc().overflowing_add_offset(offset().fix()) - computed from the receiver only
+            names = {str(x[1]).split("::")[-1] for x in walk_terms(basis) if x[0] == "call"}
+            from_recv = all(y == ("arg", 1) for y in walk_terms(basis) if y[0] == "arg")
+            ok = from_recv and (names == {"overflowing_naive_local"} or names == {"naive_utc", "overflowing_add_offset", "offset", "fix"})
         seen = P.reachable_from([fn])
         chk.expect(ok and NAIVE_LOCAL not in seen, m, "%s: %s (naive_local reachable: %s)" % (fn, [pp(x)[:150] for x in r], NAIVE_LOCAL in seen), loc=P.loc(fn))
     ctl = P.reachable_from(["datetime::DateTime::<Tz>::date_naive"])
@@ -171,7 +178,7 @@ def r_unchanged(chk, P, tier):
                 t = c[1]
                 if c[0][0] != "switch":
                     continue
-                if t[0] == "bin" and t[1] == "Eq" and const_of(t[3]) == 0 and t[2][0] == "bin" and t[2][1] == "Rem" and c[2] != 0:
+                if t[0] == "bin" and t[1] == "Eq" and const_of(t[3]) == 0 and (t[2][0] == "bin" and t[2][1] == "Rem" or is_call(t[2], suffix="::rem_euclid")) and c[2] != 0:
                     zero_rem = True
                 if t[0] == "discr" and is_call(t[1]) and str(t[1][1]).endswith("Ord for i64>::cmp") and c[2] == 0:
                     a, b = t[1][2]
@@ -180,6 +187,11 @@ def r_unchanged(chk, P, tier):
                         zero_rem = True
             unchanged = payload[0] == "arg"
             n += 1
+            if unchanged != zero_rem and not os.environ.get("VERIF_NO_VALUE_MAPS") and not any(
+                    x[0] == "bin" and x[1] == "Rem" for c in p.conds for x in walk_terms(c[1])):
+                # the remainder is not computed with `%` on this path (another idiom): which value is returned for a multiple is decided by MAP.rounding
+                chk.assume("COND.unchanged_iff_multiple: %s does not test `stamp %% span == 0` in the recognised form; decided by MAP.rounding" % fn)
+                continue
             if unchanged != zero_rem:
                 chk.bad(fn + ": path %d" % n, "%s returns %s on a path where stamp %% span %s found equal to 0" % (fn, "the input unchanged" if unchanged else "a modified value", "was NOT" if unchanged else "was"), loc=P.loc(fn))
                 break
@@ -300,3 +312,26 @@ def r_rounding_map(chk, P, tier):
         chk.ok("value")
     for cls, (a, got, w) in sorted(bad.items()):
         chk.bad(cls, "%s: (stamp / nanosecond, span / digits) = %s folds to a correction of %s, exact arithmetic gives %s" % (cls, a, got, w), loc=P.loc("round::duration_round"))
+
+
+def r_error_text(chk, P, tier):
+    """the failure that is reported is named for what exceeded what: the Display text of RoundingError::<Subject>Exceeds<Object> begins with the subject (`duration ...`,
+    `timestamp ...`) - two variants must not carry each other's message"""
+    import re
+    chk.rule("MATCH.error_text", "the Display text of each RoundingError variant starts with the subject of its name (duration / timestamp)", floor=3)
+    fn = "<round::RoundingError as std::fmt::Display>::fmt"
+    vs = P.adts["round::RoundingError"]["variants"]
+    got = {}
+    for p in Sym(P, fn).paths():
+        if p.end[0] != "return":
+            continue
+        d = [c for c in p.conds if c[0][0] == "switch" and c[1][0] == "discr"]
+        strs = [const_of(x) for x in walk_terms(p.ret) if x[0] == "const" and isinstance(const_of(x), str)]
+        if len(d) == 1 and not isinstance(d[0][2], tuple) and strs:
+            got[d[0][2]] = strs[0]
+    for v in vs:
+        subject = re.findall("[A-Z][a-z]*", v["name"])[0].lower()
+        txt = got.get(v["discr"])
+        if txt is None:
+            raise AnchorLost("RoundingError Display: no text for " + v["name"])
+        chk.expect(txt.lower().startswith(subject), v["name"], "RoundingError::%s is displayed as `%s` (expected a text about the %s)" % (v["name"], txt, subject), loc=P.loc(fn))
